@@ -113,6 +113,27 @@ def features(rec) -> list:
             for f in t[2]:
                 if f[1][0] == "newtype" and f[1][2][0] in ("opt", "any", "none"):
                     out.add("field-newtype-over-nullable")
+    call = rec.get("call") or []
+    if call and T[0] == "dc":
+        def _flags(D):
+            for o in D[3]:
+                if o[0] == "flags":
+                    return set(o[1])
+            return set()
+        top = _flags(T)
+        kws = {o[0] for o in call}
+        for o in call:
+            if o[0] == "dialect":
+                dopts = {d[0] for d in o[1]}
+                for D in subs:
+                    if D[0] != "dc" or "dialect_flag" not in _flags(D):
+                        continue
+                    fl = _flags(D)
+                    # a keyword given explicitly reaches D only through classes that enabled the same flag
+                    if "omit_none" in dopts and "omit_none_flag" in fl and not ("omit_none" in kws and "omit_none_flag" in top):
+                        out.add("call-dialect-option-shadowed-by-flag-default")
+                    if "serialize_by_alias" in dopts and "by_alias_flag" in fl and not ("by_alias" in kws and "by_alias_flag" in top):
+                        out.add("call-dialect-option-shadowed-by-flag-default")
     inp = rec.get("input")
     if inp is not None:
         need = [len(t[1]) + len(t[3]) for t in subs if t[0] == "utuple"]
@@ -133,7 +154,12 @@ class Report:
         self.t0 = time.time()
         self.violations: list[dict] = []
         self.known_hits: dict[str, int] = {}
-        self.known = [k for k in load_known() if k["property"] == prop and k.get("status") == "known"]
+        self.known = []
+        for k in load_known():
+            if prop in k.get("properties", []) and k.get("status") == "known":
+                kk = dict(k)
+                kk["where"] = k["where_by_property"][prop]
+                self.known.append(kk)
         self.cov: dict = {"states": 0, "transitions": 0, "traces_validated_against_impl": 0,
                           "evaluations": 0, "samples": []}
         self.distinct: set[str] = set()
